@@ -174,10 +174,7 @@ var _ = math.Abs
 // answer is the fold over the *current* content (nothing about an earlier answer may be remembered), and
 // the aggregate calls themselves never change the list.
 func H_C18_after_mutation() {
-	maxN := 2
-	if verifTier() > 0 {
-		maxN = 3
-	}
+	maxN := 2 // thorough keeps 2 elements and adds the Min/Max family (comparison forks over symbolic floats are the cost)
 	verifBound("LISTN_HISTORY", maxN)
 	n := nondetIntRange(1, maxN)
 	l := NewList()
